@@ -41,6 +41,11 @@ def target_kinds():
         ('Key', lambda: Key(Color.RED)),
         ('MovingObstacle', lambda: MovingObstacle()),
         ('Box', lambda: Box(Key(Color.BLUE))),
+        ('Box.Floor', lambda: Box(Floor())),
+        ('Box.Box', lambda: Box(Box(Key(Color.RED)))),
+        ('Box.Box.Box', lambda: Box(Box(Box(Exit())))),
+        ('Box.Door', lambda: Box(Door(Door.Status.LOCKED, Color.BLUE))),
+        ('Box.MovingObstacle', lambda: Box(MovingObstacle())),
         ('Telepod', lambda: Telepod(Color.GREEN)),
         ('Beacon', lambda: Beacon(Color.YELLOW)),
     ]
